@@ -124,6 +124,25 @@ GROUPS["bvd_iarray"] = dict(name="bvd_iarray", features="#![feature(allocator_ap
 
 from units import INT_BITS
 
+# the slice-level re-chunking (impl IArray / IArrayMut for [I]) for I narrower than J: the safe word-combining branch (R25 drops the dead unsafe arm)
+def slice_narrow_prelude(ctx):
+    return WORD_PRELUDE + ["iarray.rs", word_j(), ("chunk.rs", {"Y": "_{J}"}), ("int_cast.rs", {"I": "{J}", "J": "{I}", "X": "_{J}", "Y": ""}), ("int_cast.rs", {"Y": "_{J}"}), ("slice_narrow.rs", {"Y": "_{J}"})]
+GROUPS["slice_iarray"] = dict(name="slice_iarray", prelude=slice_narrow_prelude,
+    items=lambda ctx: BASE_DECLS + stub_int() + int_impl_j(ctx) + [("stub", "cast.from", {"A": "{I}", "B": "{J}"}), ("stub", "cast.to", {"A": "{I}", "B": "{J}"})]
+        + with_ctx([("verify", "slice.int_len_v"), ("verify", "slice.get_int_narrow"), ("verify", "slice.set_int_narrow")], YJ))
+# int_len of a slice (no unsafe code: size_of_val arithmetic) for every pair of word types
+GROUPS["slice_len"] = dict(name="slice_len", prelude=lambda ctx: WORD_PRELUDE + ["iarray.rs"] + ([word_j()] if ctx["J"] != ctx["I"] else []),
+    items=lambda ctx: BASE_DECLS + stub_int() + int_impl_j(ctx) + with_ctx([("verify", "slice.int_len_v")], YJ))
+# impl StaticCast<B> for A (macro impl_staticcast!): one file per (A, B) (Verus cannot name the return value of `cast_to` when several StaticCast<_> impls of one type coexist)
+CAST_TYPES = ["u8", "u16", "u32", "u64", "u128", "usize"]
+GROUPS["casts"] = dict(name="casts", prelude=lambda ctx: ["base.rs"],
+    items=lambda ctx: verify(["cast.from", "cast.to"]))
+def slice_jobs(pairs):
+    """slice-level re-chunking under proof: int_len for every pair, get_int/set_int where the slice word is narrower than the chunk"""
+    return [("slice_len", {"I": i, "J": j}) for (i, j) in pairs] + [("slice_iarray", {"I": i, "J": j}) for (i, j) in pairs if INT_BITS[i] < INT_BITS[j]]
+def cast_jobs(types):
+    return [("casts", {"A": a, "B": b}) for a in types for b in types]
+
 def pair(i, j, **kw):
     """job ctx for an operation on Bvf<I,..> (self) with an operand over word type J"""
     c = {"I": i, "J": j, "XJ": "" if i == j else "_" + j, "XD": "" if i == "u64" else "_u64"}
@@ -704,7 +723,8 @@ PQ = [("u64", "u64"), ("u64", "u8"), ("u8", "u64")]
 PT = [(i, j) for i in W4 for j in W4]
 def iarray_jobs(pairs, dj):
     """the chunk readers every mixed-word-size unit relies on: Bvf<I,_> read as J chunks, Bvd read as J chunks"""
-    return [("bvf_iarray", {"I": i, "J": j}) for (i, j) in pairs] + [("bvd_iarray", {"I": "u64", "J": j}) for j in dj]
+    dpairs = [("u64", j) for j in dj if ("u64", j) not in pairs]
+    return [("bvf_iarray", {"I": i, "J": j}) for (i, j) in pairs] + [("bvd_iarray", {"I": "u64", "J": j}) for j in dj] + slice_jobs(list(pairs) + dpairs)
 IA_Q, IA_T = iarray_jobs(PQ, WQ), iarray_jobs(PT, W4)
 CONV_Q = [("bvf_conv_bvf", pair(i, j)) for (i, j) in PQ] + [("bvd_conv_bvf", pair("u64", j)) for j in WQ] + [("bvf_conv_bvd", dctx(i)) for i in WQ]
 CONV_T = [("bvf_conv_bvf", pair(i, j)) for (i, j) in PT] + [("bvd_conv_bvf", pair("u64", j)) for j in W4] + [("bvf_conv_bvd", dctx(i)) for i in W4]
@@ -828,6 +848,14 @@ PROPS["C02"] = {"quick": BVD_ARITH_JOBS[1:] + div_jobs(PQ, WQ), "thorough": BVD_
 # -------------------------------------------------------------------------------------------------
 # manifest texts
 NOT_CLAIMED = {}
+# the slice-level re-chunking (int_len everywhere; get_int/set_int where the slice word is narrower than the chunk) and the StaticCast impls, under proof
+for _p in ("C07", "C11"):
+    PROPS[_p]["quick"] += slice_jobs([("u8", "u64")])
+    PROPS[_p]["thorough"] += slice_jobs(PT)
+for _p in ("C01", "C04", "C11", "C12", "C13"):
+    PROPS[_p]["quick"] += cast_jobs(WQ)
+    PROPS[_p]["thorough"] += cast_jobs(W4)
+
 MANIFEST_TEXT = {}
 TRUST_NOTE = ("Trusted base (also listed verbatim in the evidence): assumed contracts of std functions (T1: overflowing_add/sub, "
               "Result::map_or, integer TryFrom, ...), machine model 64-bit little-endian (T5), storage < usize::MAX/2 bits (A-size), "
@@ -918,13 +946,13 @@ MANIFEST_TEXT["C11"] = dict(
           "(Err exactly when significant_bits > w, otherwise the VALUE; no reachable panic, empty vectors included) are verified at value level, on top of the verified significant_bits, get_int readers and StaticCast; "
           "Bit <-> integer / bool conversions are verified (bit.unit). While writing these contracts the proof found D11 (Bvf::<I,0>::try_from panicked), repaired in /repo." + DYN_NOTE),
     note=("Not under contract (second engine only): u128 and usize as native types (no bit-vector vocabulary for them; Bvd's loop really accumulates only for u128), slice conversions From<&[I]>, by-value / by-reference forwarders. "
-          "Assumed: {uN}::checked_shr / checked_shl / leading_zeros (T1, vstd's axioms for leading_zeros), A-size32 for TryFrom<uN> for Bvf (storage below 2^32 bits: the shift amount is cast to u32), the slice-level get_int (T2). " + TRUST_NOTE))
+          "Assumed: {uN}::checked_shr / checked_shl / leading_zeros (T1, vstd's axioms for leading_zeros), A-size32 for TryFrom<uN> for Bvf (storage below 2^32 bits: the shift amount is cast to u32), the slice-level get_int where the slice word is at least as wide as the chunk (T2: unsafe align_to; the word-combining branch for narrower slice words is verified). " + TRUST_NOTE))
 MANIFEST_TEXT["C12"] = dict(
     text=("Proof: TryFrom<&Bvf<I1,N1>> for Bvf<I2,N2> (any two word sizes), TryFrom<&Bvd> for Bvf<I,N> and From<&Bvf<I,N>> for Bvd are verified against the contract "
           "`Err(NotEnoughCapacity) exactly when the source is LONGER than the target capacity (whatever its value); otherwise Ok with the same length, the same bit at every index below len, "
           "storage beyond len zero (wf), and for Bvd exactly ceil(len/64) words`, on top of the verified chunk readers IArray::get_int/int_len of Bvf and Bvd (every word-size pair)." + DYN_NOTE),
     note=("Also verified: From<&Bv>/From<Bvd>/From<&Bvd>/From<&Bvf<J,N>> for Bv (inline exactly when the length / the source capacity fits 128 bits) and From<&Bv> for Bvd. TryFrom<&Bv> for Bvf<I,N> is verified too. Not yet under contract (second engine only): the by-value forms (forwarders), From<&[I]>, new/into_inner round trip (new/into_inner themselves are verified, see C07). "
-          "The slice-level get_int (unsafe align_to / word-combining loop in utils.rs) is a trusted contract (T2). " + TRUST_NOTE))
+          "The slice-level int_len is verified for every pair of word types, and get_int / set_int are verified where the slice word is narrower than the chunk (word-combining / word-splitting loop of utils.rs; the dead unsafe arm is removed by R25 exactly as monomorphisation removes it). Where the slice word is at least as wide as the chunk the code is `unsafe { align_to }`, outside Verus: its contract stays trusted (T2) and is exercised only by the native fuzz harnesses. " + TRUST_NOTE))
 dyn_only("C13", "to_vec/write/from_bytes/read for both endiannesses incl. surplus bits, short input, capacity errors and round trips.", "from_bytes (enumerate/rev iterator adapters) and read/write (io traits, `?`) are outside what Verus takes; D3 was found and fixed. ONE direction IS verified on every run of this check: to_vec of Bvf, Bvd and Bv "
          "(exactly ceil(len/8) bytes; Little: bit t of byte j is bit 8j+t of the vector, surplus bits of the top byte zero; Big: the same bytes reversed) - units bvf.to_vec, bvd.to_vec, bv.to_vec; a definite failure there is reported as a violation of this property.")
 dyn_only("C14", "Display/Binary/Octal/LowerHex/UpperHex under 21 format specifications against Rust's formatting of the u128 value.",
